@@ -33,7 +33,8 @@ from decimal import Decimal
 VERIF = os.path.dirname(os.path.dirname(os.path.abspath(__file__)))
 LEAN = os.path.join(VERIF, 'lean')
 REPO = os.environ.get('VOTELIB_REPO', '/repo')
-DRIVER = os.path.join(LEAN, '.lake', 'build', 'bin', 'vldriver')
+def driver_path(pid):
+    return os.path.join(LEAN, '.lake', 'build', 'bin', f'vldriver_{pid}')
 ALLOWED_AXIOMS = {'propext', 'Classical.choice', 'Quot.sound'}
 FORBIDDEN = ['sorry', 'admit', 'native_decide', 'bv_decide', 'implemented_by', 'unsafe ', 'maxHeartbeats 0']
 
@@ -281,12 +282,12 @@ def grep_forbidden(modules):
     return hits
 
 
-def run_driver(lines, timeout=1800):
+def run_driver(lines, pid, timeout=1800):
     """pipe protocol lines through vldriver; returns list of parsed answers"""
     if not lines:
         return []
     data = '\n'.join(json.dumps(l, separators=(',', ':')) for l in lines) + '\n'
-    p = subprocess.run([DRIVER], input=data, stdout=subprocess.PIPE, stderr=subprocess.PIPE, text=True, timeout=timeout)
+    p = subprocess.run([driver_path(pid)], input=data, stdout=subprocess.PIPE, stderr=subprocess.PIPE, text=True, timeout=timeout)
     outs = p.stdout.split('\n')
     if outs and outs[-1] == '':
         outs.pop()
@@ -365,8 +366,8 @@ class Runner:
                 if ml is not None:
                     lines.append(ml)
                     idx.append(len(recs) - 1)
-        if with_model and lines and os.path.exists(DRIVER):
-            outs = run_driver(lines)
+        if with_model and lines and os.path.exists(driver_path(self.pid)):
+            outs = run_driver(lines, self.pid)
             for i, o in zip(idx, outs):
                 recs[i]['model'] = o
                 if isinstance(o, dict) and 'driver_error' in o:
@@ -424,7 +425,7 @@ def run_check(pid, tier, seed):
 
     # 2. build proofs + driver
     t = time.time()
-    ok, out = lake_build(list(mod.LEAN_MODULES) + ['VotelibAudit', 'vldriver'])
+    ok, out = lake_build(list(mod.LEAN_MODULES) + ['VotelibAudit', f'vldriver_{pid}'])
     status['build_ok'] = ok
     status['build_s'] = round(time.time() - t, 1)
     fails = []
@@ -433,7 +434,7 @@ def run_check(pid, tier, seed):
         for f in fails:
             broken.append(f"proof:{f['decl']}: {f['msg']}")
         # the driver may still be buildable from the model alone
-        ok2, out2 = lake_build(['vldriver'])
+        ok2, out2 = lake_build([f'vldriver_{pid}'])
         status['driver_ok'] = ok2
     else:
         status['driver_ok'] = True
@@ -592,7 +593,7 @@ def run_check(pid, tier, seed):
         'property_id': pid, 'tier': tier, 'seed': seed, 'level': 'proof',
         'coverage': {
             'obligations': obligations, 'discharged': len(discharged),
-            'checker_cmd': f'cd lean && lake build {" ".join(mod.LEAN_MODULES)} vldriver && lake env lean .audit/{pid}.lean'
+            'checker_cmd': f'cd lean && lake build {" ".join(mod.LEAN_MODULES)} vldriver_{pid} && lake env lean .audit/{pid}.lean'
                            + (' && lake env leanchecker ' + ' '.join(mod.LEAN_MODULES) if tier == 'thorough' else ''),
             'trusted_base': [
                 'Lean 4.33.0 kernel; axioms propext, Classical.choice, Quot.sound only (audited per theorem)',
@@ -650,3 +651,19 @@ def replay(path):
     print('observed:', json.dumps(io, default=str))
     print('violated:', v)
     return 1 if v else 0
+
+
+def setup():
+    """build everything every registered check needs (MANIFEST.setup_cmd)"""
+    import translate
+    tr = translate.regenerate()
+    print('translator:', {m: v['error'] or 'ok' for m, v in tr.items()})
+    targets = ['VotelibAudit']
+    pdir = os.path.join(VERIF, 'harness', 'props')
+    for fn in sorted(os.listdir(pdir)):
+        if fn.startswith('C') and fn.endswith('.py'):
+            mod = importlib.import_module('props.' + fn[:-3])
+            targets += list(mod.LEAN_MODULES) + [f'vldriver_{mod.ID}']
+    ok, out = lake_build(sorted(set(targets)), timeout=7200)
+    print(out[-3000:])
+    return 0 if ok else 1
